@@ -79,6 +79,7 @@ type Terms struct {
 	False  *Term
 	Vars   []*Term
 	consts map[uint64]*Term // small cache for 64-bit consts
+	hasUF  bool             // an uninterpreted function was used: models cannot be evaluated
 }
 
 // T is the process-wide term table.
@@ -675,6 +676,7 @@ func AndAll(ts ...*Term) *Term {
 
 // UF applies an uninterpreted function of result width w (0 = Bool).
 func UF(name string, w int, args ...*Term) *Term {
+	T.hasUF = true
 	return T.mk(OpUF, w, 0, name, args...)
 }
 
